@@ -13,6 +13,8 @@
 //!       random worlds and deeper random request paths (plus every file and directory of each world under its
 //!       spellings); stdout: one record per call {"w","h","route","uri","st","id","ct","loc","canary"} for TLC
 //!       (Trace_StaticFs), the worlds go to <worlds-out.ndjson>.
+//!   staticfs rerun <scratch-dir> <worlds-in.ndjson>
+//!       stdin: recorded calls; the same requests are sent again to the current tree and logged in the same format.
 //!
 //! The harness knows nothing about decoding, guards or lookups: expectations come from TLC; the only logic here is
 //! the projection of a Response and the comparison `conforms` (mirrors Conforms in StaticFs.tla).
@@ -308,7 +310,7 @@ fn replay<B: Backend>(scratch: &str, threads: usize) {
                             if ta.first.len() < 40 {
                                 let dev = if *h == "file_path" && !g.panic && x[0].as_u64() == Some(g.st as u64) && x[1].as_i64() == Some(g.id) { "FilePathNoCheck" } else { "" };
                                 ta.first.push(json!({"world": w.ix, "handler": h, "route": route_s, "uri": uri_s, "uri_bytes": uri,
-                                    "dir_with_trailing_slash": alt, "expected": e, "got": got_json(&g), "dev": dev}));
+                                    "dir_with_trailing_slash": alt, "expected": e, "got": got_json(&g), "dev": dev, "vector": v}));
                             }
                         } else if ta.samples.len() < 3 && e[0].as_str() != Some("x") && e[0].as_str() != Some("n") && rel.len() > 6 && (i / nthreads) % 97 == 0 {
                             ta.samples.push(json!({"world": w.ix, "handler": h, "route": route_s, "uri": uri_s, "expected": e, "got": got_json(&g)}));
@@ -517,6 +519,33 @@ fn random<B: Backend>(nworlds: usize, per_world: usize, scratch: &str, worlds_ou
     }
 }
 
+/// Re-issue recorded requests (stdin: records with "w","h","route","uri") against freshly built worlds and log the
+/// answers of the current tree in the same format (used by `bin/check C06 --replay`).
+fn rerun<B: Backend>(scratch: &str, worlds_in: &str) {
+    let text = std::fs::read_to_string(worlds_in).expect("worlds file");
+    let mut worlds: HashMap<usize, (World, B)> = HashMap::new();
+    for line in text.lines() {
+        let v: Value = match serde_json::from_str(line) { Ok(v) => v, Err(_) => continue };
+        let (ix, root, nodes) = parse_world(&v);
+        let w = build_world(scratch, ix, root, nodes);
+        let b = B::new(&w.root_dir);
+        worlds.insert(ix, (w, b));
+    }
+    for line in stdin_lines() {
+        let v: Value = match serde_json::from_str(&line) { Ok(v) => v, Err(_) => continue };
+        let wi = v["w"].as_u64().unwrap() as usize;
+        let h = v["h"].as_str().unwrap().to_string();
+        let (route, uri) = (bytes_of(&v["route"]), bytes_of(&v["uri"]));
+        let (w, b) = match worlds.get(&wi) { Some(x) => x, None => continue };
+        if !B::handlers().contains(&h.as_str()) { continue; }
+        let g = call(b, w, &h, std::str::from_utf8(&route).unwrap(), std::str::from_utf8(&uri).unwrap(), false);
+        out_line(&json!({"w": wi, "h": h, "route": route, "uri": uri, "st": g.st, "id": g.id, "ct": g.ct, "loc": g.loc, "canary": g.canary || g.panic}));
+    }
+    for (ix, _) in worlds.iter() {
+        let _ = std::fs::remove_dir_all(PathBuf::from(scratch).join(format!("w{}", ix)));
+    }
+}
+
 fn call<B: Backend>(b: &B, w: &World, h: &str, route: &str, uri: &str, alt: bool) -> Got {
     let r = std::panic::catch_unwind(std::panic::AssertUnwindSafe(|| b.call(h, route, uri, alt)));
     project(w, r.map_err(|_| ()))
@@ -528,8 +557,9 @@ pub fn main_with<B: Backend>() {
     match a.get(1).map(|s| s.as_str()) {
         Some("replay") if a.len() >= 3 => replay::<B>(&a[2], a.get(3).and_then(|s| s.parse().ok()).unwrap_or(8)),
         Some("random") if a.len() >= 6 => random::<B>(a[2].parse().unwrap(), a[3].parse().unwrap(), &a[4], &a[5]),
+        Some("rerun") if a.len() >= 4 => rerun::<B>(&a[2], &a[3]),
         _ => {
-            eprintln!("usage: staticfs replay <scratch> [threads] | random <worlds> <per-world> <scratch> <worlds-out>");
+            eprintln!("usage: staticfs replay <scratch> [threads] | random <worlds> <per-world> <scratch> <worlds-out> | rerun <scratch> <worlds-in>");
             std::process::exit(2)
         }
     }
